@@ -10,6 +10,7 @@ times; settings read from WebVTT are written back verbatim.
 import itertools
 from fractions import Fraction
 
+from mc import shared
 from mc.acc import Acc
 from mc.ref import parsers
 
@@ -173,8 +174,8 @@ def eval_dfxp(desc, fit, relativize=True):
     v = []
     klass = desc.get("klass", "single-level")
     try:
-        doc = DFXPWriter(fit_to_screen=fit, relativize=relativize).write(build(desc))
-        cs = DFXPReader().read(doc)
+        doc = shared.obj(DFXPWriter, fit_to_screen=fit, relativize=relativize).write(build(desc))
+        cs = shared.obj(DFXPReader).read(doc)
     except Exception as e:  # noqa
         return [(f"C12/dfxp/{klass}/raises:{type(e).__name__}", {"err": str(e)[:300]})], "raises"
     exp = expected_effective(desc)
@@ -273,7 +274,7 @@ def eval_vtt(desc, fit):
 
     klass = desc.get("klass", "vtt")
     try:
-        doc = WebVTTWriter(fit_to_screen=fit).write(build(desc))
+        doc = shared.obj(WebVTTWriter, fit_to_screen=fit).write(build(desc))
         cues = parsers.parse_vtt(doc)
     except Exception as e:  # noqa
         return [(f"C12/webvtt/{klass}/raises:{type(e).__name__}", {"err": str(e)[:300]})], "raises"
@@ -329,6 +330,24 @@ def eval_verbatim(settings_list):
 
 
 # ---- enumeration ---------------------------------------------------------------------------------------------------
+def reuse_items():
+    items = []
+    g = list(grid())
+    for i, spec in enumerate(g[::53]):
+        level = ("lang", "caption", "span")[i % 3]
+        items.append(("dfxp", single_level_desc(spec, level), bool(i % 2)))
+        if spec[0]:
+            items.append(("vtt", dict(single_level_desc(spec, level), klass="vtt-" + level), bool(i % 2)))
+        a, b = REDUCED[i % len(REDUCED)], REDUCED[(i * 3 + 1) % len(REDUCED)]
+        items.append(("dfxp", {"lang": a, "captions": [{"layout": b, "parts": [("t0", None, "plain")]}], "klass": "lang+caption"}, False))
+    return items
+
+
+def reuse_eval(item):
+    fn = eval_dfxp if item[0] == "dfxp" else eval_vtt
+    return fn(item[1], item[2])
+
+
 def single_level_desc(spec, level):
     if level == "lang":
         return {"lang": spec, "captions": [{"layout": None, "parts": [("t0", None, "plain")]}], "klass": "lang-level"}
@@ -345,6 +364,7 @@ def shards(tier, seed):
             sh.append({"k": "single", "level": level, "part": part, "nparts": np_, "tier": tier})
     sh.append({"k": "multi"})
     sh.append({"k": "pairs"})
+    sh.append({"k": "reuse"})
     if tier == "thorough":
         for part in range(16):
             sh.append({"k": "two-level-grid", "part": part, "nparts": 16, "tier": tier})
@@ -365,7 +385,9 @@ def run_shard(d):
         for sig, det in v:
             acc.violation(sig, {"fn": fn.__name__, "desc": desc, "fit": fit}, det)
 
-    if k == "two-level-grid":
+    if k == "reuse":
+        shared.run(acc, reuse_items(), reuse_eval, sample=lambda it: {"reuse_run_step": [it[0], it[1], it[2]]})
+    elif k == "two-level-grid":
         partner = REDUCED[2]
         for i, spec in enumerate(grid(d["tier"])):
             if i % d["nparts"] != d["part"] or spec == partner:
@@ -441,6 +463,8 @@ def _t(x):
 
 
 def replay(case):
+    if case.get("reuse"):
+        return shared.replay(reuse_items(), reuse_eval, case["index"])
     if case["fn"] == "verbatim":
         v, _ = eval_verbatim(tuple(case["settings"]))
         return [{"sig": s, "detail": d} for s, d in v]
